@@ -311,6 +311,8 @@ fn sc_wrap<T: BT>(env: &Env, rep: &mut Report, name: &str) {
          fn rej(x: {t}) -> Verdict[u16, {t}] {{ Verdict.Reject(x) }}\n\
          fn unopt(o: Option[{t}], d: {t}) -> {t} {{ match o {{ Some(y) => y, None => d }} }}\n\
          fn unres(r: Result[{t}, {t}]) -> {t} {{ match r {{ Ok(y) => y, Err(z) => z }} }}\n\
+         fn quest(o: Option[{t}]) -> Option[{t}] {{ let x = o?; Option.Some(x) }}\n\
+         filtermap fm(x: {t}, c: bool) {{ if c {{ accept x }} else {{ reject x }} }}\n\
          fn which(o: Option[{t}], r: Result[{t}, u8], v: Verdict[u8, {t}]) -> u8 {{\n\
            let a = match o {{ Some(_) => 1, None => 2 }};\n\
            let b = match r {{ Ok(_) => 10, Err(_) => 20 }};\n\
@@ -329,6 +331,8 @@ fn sc_wrap<T: BT>(env: &Env, rep: &mut Report, name: &str) {
     let f_unopt = g!("unopt", fn(Option<T>, T) -> T);
     let f_unres = g!("unres", fn(Result<T, T>) -> T);
     let f_which = g!("which", fn(Option<T>, Result<T, u8>, Verdict<u8, T>) -> u8);
+    let f_quest = g!("quest", fn(Option<T>) -> Option<T>);
+    let f_fm = g!("fm", fn(T, bool) -> Verdict<T, T>);
     let mut p = Prng::for_case(env.seed, h64(name));
     for k in 0..env.rounds {
         let v = T::gen_val(&mut p, k);
@@ -350,6 +354,10 @@ fn sc_wrap<T: BT>(env: &Env, rep: &mut Report, name: &str) {
         chk("match None", ws.clone(), f_unopt.call(None, w.clone()).show());
         chk("match Ok(y)", vs.clone(), f_unres.call(Ok(v.clone())).show());
         chk("match Err(z)", ws.clone(), f_unres.call(Err(w.clone())).show());
+        chk("x? on Some", format!("Some({vs})"), f_quest.call(Some(v.clone())).show());
+        chk("x? on None", "None".into(), f_quest.call(None).show());
+        chk("accept x", format!("Accept({vs})"), f_fm.call(v.clone(), true).show());
+        chk("reject x", format!("Reject({ws})"), f_fm.call(w.clone(), false).show());
         for (o, r, vd, want) in [
             (Some(v.clone()), Ok(w.clone()), Verdict::Accept(3u8), 111u8),
             (None, Err(9u8), Verdict::Reject(w.clone()), 222u8),
@@ -357,7 +365,7 @@ fn sc_wrap<T: BT>(env: &Env, rep: &mut Report, name: &str) {
         ] {
             chk("discriminants", want.to_string(), f_which.call(o, r, vd).to_string());
         }
-        rep.evaluations += 13;
+        rep.evaluations += 17;
         if let Some((what, want, got)) = bad.first() {
             let mut input = json!({"script": src, "construct": what, "expected": want, "got": got, "round": k});
             input["case"] = json!(name);
@@ -793,6 +801,63 @@ fn facts(rep: &mut Report, tier: &str) {
         rep.hist("depth", d.depth().to_string());
         rep.hist("size", pr.size.to_string());
         rep.hist("align", pr.align.to_string());
+    }
+
+    // random deeper types (no Rust counterpart needed): the compiler's own layout_of /
+    // is_reference_type / variant offsets / lowered signature against the model
+    {
+        let n = if tier == "thorough" { 3000 } else { 300 };
+        let mut p = Prng::new(0xDEE9);
+        let leaf_ds: Vec<&D> = descs.iter().map(|x| &x.0).filter(|d| d.depth() == 0).collect();
+        fn deep(p: &mut Prng, leaves: &[&D], depth: u32) -> D {
+            if depth == 0 || p.chance(1, 4) {
+                return (*p.pick(leaves)).clone();
+            }
+            match p.below(4) {
+                0 => D::Opt(Box::new(deep(p, leaves, depth - 1))),
+                1 => D::Res(Box::new(deep(p, leaves, depth - 1)), Box::new(deep(p, leaves, depth - 1))),
+                2 => D::Ver(Box::new(deep(p, leaves, depth - 1)), Box::new(deep(p, leaves, depth - 1))),
+                _ => D::List(Box::new(deep(p, leaves, depth - 1))),
+            }
+        }
+        for _ in 0..n {
+            let dep = 2 + p.below(4) as u32;
+            let d = deep(&mut p, &leaf_ds, dep);
+            let ans = drv.ask(&format!("c05 layout {hl} {}", d.lean()));
+            rep.evaluations += 1;
+            let src = format!("fn main(x: {t}) -> {t} {{ x }}\n", t = d.roto());
+            let dump = match std::panic::catch_unwind(std::panic::AssertUnwindSafe(|| {
+                roto::verif_hooks::c05::signatures(FileTree::test_file("c05.roto", &src, 0), &rt)
+            })) {
+                Ok(Ok(dump)) => dump,
+                Ok(Err(e)) => {
+                    rep.mismatch("a script over boundary types did not compile", json!({"script": src, "error": format!("{e:?}").chars().take(400).collect::<String>()}));
+                    continue;
+                }
+                Err(_) => {
+                    rep.violation("the compiler panicked on an identity script", &format!("compile-panic:{}", d.class()), json!({"script": src}));
+                    continue;
+                }
+            };
+            let Some(m) = dump.mir.iter().find(|m| m.name == "pkg.main") else { continue };
+            let real_roto = m.ret.layout.map(|(s, a)| format!("{s} {a}")).unwrap_or("-".into());
+            let real_ref = match m.ret.is_reference_type { Some(true) => "1", Some(false) => "0", None => "-" };
+            let loc = m.ret.variant_offsets.as_ref().map(|vo| vo.iter().map(|o| o.map(|x| x.to_string()).unwrap_or("-".into())).collect::<Vec<_>>().join(","));
+            let offs = field(&ans, "offs", 3);
+            // the model's Rust side is the closed form the theorems relate the Roto side to
+            let model_rust = field(&ans, "rust", 2).join(" ");
+            if field(&ans, "roto", 2).join(" ") != real_roto || field(&ans, "isref", 1).join("") != real_ref
+                || (loc.is_some() && offs.len() == 3 && Some(offs[0].to_string()) != loc) || model_rust != real_roto
+                || (offs.len() == 3 && loc.is_some() && offs[2] != offs[0])
+            {
+                rep.mismatch("layout_of / is_reference_type / variant offsets of a deep type differ from the model",
+                    json!({"type": d.roto(), "real": {"layout": real_roto, "isref": real_ref, "offsets": loc}, "model": ans}));
+                continue;
+            }
+            sig_check(&mut drv, rep, &hl, &dump, "pkg.main", &d, std::slice::from_ref(&d), &src);
+            rep.hist("deep_depth", d.depth().to_string());
+            rep.class(format!("deep:{}", d.class()));
+        }
     }
 
     // the signature under which a registered function is called
